@@ -840,17 +840,24 @@ class ScriptGen:
 
 
 def dedup_asserts(cmds, rng, keep_p=0.08):
-    """Drop assertions whose (name-stripped) text repeats an earlier assertion, except with probability keep_p.
-    opensmt identifies assertions by their term, so repeated formulas hit known limitations of cores/interpolants;
-    most of the workload avoids them so that other defects stay visible."""
+    """Drop assertions whose (name-stripped) text repeats an assertion that is still on the assertion stack, except with
+    probability keep_p.  opensmt identifies assertions by their term, so a formula asserted twice on the stack hits known
+    limitations of cores/interpolants; most of the workload avoids them so that other defects stay visible.  A formula that
+    repeats a *popped* assertion is kept: the popped one must leave no trace."""
     from .terms import strip_named
-    seen = set()
+    levels = [set()]
     out = []
     for c in cmds:
-        if c["k"] == "assert":
+        if c["k"] == "push":
+            for _ in range(c["n"]):
+                levels.append(set())
+        elif c["k"] == "pop":
+            for _ in range(min(c["n"], len(levels) - 1)):
+                levels.pop()
+        elif c["k"] == "assert":
             t = to_smt(strip_named(c["term"]), "ref")
-            if t in seen and rng.random() >= keep_p:
+            if any(t in lv for lv in levels) and rng.random() >= keep_p:
                 continue
-            seen.add(t)
+            levels[-1].add(t)
         out.append(c)
     return out
